@@ -531,6 +531,9 @@ class Evaluator:
                         return a in o.fields or self.prog.lookup_method(o.cls, a) is not None
                     return hasattr(o, a)
                 return getattr(_b, n)(*args, **kwargs)
+            if n == "callable":
+                return isinstance(args[0], (Closure, FuncInfo)) or (callable(args[0]) and not isinstance(args[0], (ClassInfo,))) \
+                    or (isinstance(args[0], tuple) and len(args[0]) == 3 and args[0][0] == "bound")
             if n == "getattr" and len(args) >= 2:
                 try:
                     return self.getattr(args[0], args[1], fi)
